@@ -29,6 +29,7 @@ type cenv struct {
 	loopPre *State // loop invariants: the state in which the loop was entered, for entry(e)
 	root   *cenv // the clause's top-level environment: lets are evaluated there, once
 	lets   map[string]Value
+	loopHead *ssa.BasicBlock // loop whose clause is evaluated: selects the hidden index of that range loop
 	pos    token.Pos // where the clause is evaluated (loop or call position): decides which of several same-named locals is meant
 }
 
@@ -211,6 +212,24 @@ func (e *cenv) ident(name string) Value {
 	}
 	if e.fn != nil {
 		if e.body && !e.inOld {
+			if name == "rangeindex" && e.loopHead != nil {
+				// the hidden index of the range loop this clause belongs to: the one declared last before the loop head
+				var best *ssa.Alloc
+				for _, b := range e.fn.Blocks {
+					for _, in := range b.Instrs {
+						if a, ok := in.(*ssa.Alloc); ok && a.Comment == "rangeindex" && fx.isCell(a) && b.Index < e.loopHead.Index {
+							if best == nil || b.Index > best.Block().Index {
+								best = a
+							}
+						}
+					}
+				}
+				if best != nil {
+					if v, ok := e.st.cells[best]; ok {
+						return v
+					}
+				}
+			}
 			if a := fx.allocInScope(e.fn, name, e.pos); a != nil {
 				if fx.isCell(a) {
 					if v, ok := e.st.cells[a]; ok {
